@@ -347,7 +347,7 @@ type c05RcptResult struct {
 // the statement: policies in force, facts of the world, nothing else.
 func c05Need(cfg c05Cfg, flag string, d c05Dom, mx c05MX, tlsOn, mailReqTLS bool) []string {
 	var need []string
-	if flag == "quarantine" {
+	if strings.HasPrefix(flag, "quarantine") {
 		return []string{"quarantined"}
 	}
 	inForce := !(flag == "notls" && cfg.Override)
@@ -466,7 +466,22 @@ func c05Run(c c05Case) (fp, detail string, out string) {
 			}
 		}
 		c05Release()
-		if len(accepted) > 0 {
+		if strings.HasPrefix(m.Flag, "quarantine-late") {
+			// a body-stage check of the pipeline quarantines the message after the recipients were accepted
+			meta.Quarantine = true
+		}
+		if len(accepted) > 0 && m.Flag == "quarantine-late-atomic" {
+			err := dl.Body(ctx, hdr, buffer.MemoryBuffer{Slice: []byte("content of message " + strconv.Itoa(k) + "\r\n")})
+			for _, i := range accepted {
+				results[k][i].Err = err
+				results[k][i].Sent = err == nil
+			}
+			if err == nil {
+				dl.Commit(ctx)
+			} else {
+				dl.Abort(ctx)
+			}
+		} else if len(accepted) > 0 {
 			st := &rhStatus{}
 			dl.(module.PartialDelivery).BodyNonAtomic(ctx, st, hdr, buffer.MemoryBuffer{Slice: []byte("content of message " + strconv.Itoa(k) + "\r\n")})
 			for rc, i := range accepted {
@@ -527,7 +542,7 @@ func c05Run(c c05Case) (fp, detail string, out string) {
 	}
 	// ---- discovery failures defer ------------------------------------------------------
 	for k, m := range c.Hist {
-		if m.Flag == "quarantine" {
+		if strings.HasPrefix(m.Flag, "quarantine") {
 			continue
 		}
 		inForce := !(m.Flag == "notls" && c.Cfg.Override)
@@ -711,7 +726,7 @@ func TestVerifC05(t *testing.T) {
 	log.DefaultLogger.Out = log.NopOutput{}
 	r := vx.Start("C05", "remote")
 	defer r.Finish()
-	r.Rule("real remote target (New+Init from configuration text; real mx_auth group with mtasts cache, dane, dnssec, local_policy; real pool and smtpconn) delivering histories of 1-3 messages to scripted MX servers; families: (A) one message, one MX: configurations {mtasts,dane,dnssec} x local_policy {absent, 3 TLS levels x 3 MX levels} x requiretls_override x relaxed_requiretls, message flag {none, REQUIRETLS, TLS-Required: No, quarantined}, MTA-STS {none, testing, enforce} x MX listed, MX RRset AD on/off, STARTTLS {not offered, valid, self-signed, wrong name, handshake failing}, TLSA {none, EE match, TA match, mismatch, unusable, SERVFAIL} x address AD on/off, REQUIRETLS offered or not, MX lookup SERVFAIL; (G) the same for an MX host name that is a CNAME (TLSA facts at the canonical name, dane policy on); (B) two MX candidates; (C) histories of 2-3 messages to one domain sharing the pool; (D) messages to two domains. Oracle: for every transaction in which a server received message content, the requirements of the statement computed from the facts and the TLS state seen by the server; discovery failures must yield temporary errors. Quick tier explores only cases whose irrelevant facts are canonical. Non-trivial: distinct cases in which some policy is in force and content was either transmitted or refused")
+	r.Rule("real remote target (New+Init from configuration text; real mx_auth group with mtasts cache, dane, dnssec, local_policy; real pool and smtpconn) delivering histories of 1-3 messages to scripted MX servers; families: (A) one message, one MX: configurations {mtasts,dane,dnssec} x local_policy {absent, 3 TLS levels x 3 MX levels} x requiretls_override x relaxed_requiretls, message flag {none, REQUIRETLS, TLS-Required: No, quarantined}, MTA-STS {none, testing, enforce} x MX listed, MX RRset AD on/off, STARTTLS {not offered, valid, self-signed, wrong name, handshake failing}, TLSA {none, EE match, TA match, mismatch, unusable, SERVFAIL} x address AD on/off, REQUIRETLS offered or not, MX lookup SERVFAIL; (G) the same for an MX host name that is a CNAME (TLSA facts at the canonical name, dane policy on); (Q) messages quarantined after the recipients were accepted, on the atomic and the per-recipient body path; (B) two MX candidates; (C) histories of 2-3 messages to one domain sharing the pool; (D) messages to two domains. Oracle: for every transaction in which a server received message content, the requirements of the statement computed from the facts and the TLS state seen by the server; discovery failures must yield temporary errors. Quick tier explores only cases whose irrelevant facts are canonical. Non-trivial: distinct cases in which some policy is in force and content was either transmitted or refused")
 	if rp := r.Replay(); rp != nil {
 		var c c05Case
 		if json.Unmarshal(rp, &c) != nil {
@@ -831,6 +846,18 @@ func TestVerifC05(t *testing.T) {
 			for _, mx := range c05MXs([]string{"", "valid", "selfsigned"}, c05TLSAKinds, bools, []bool{false}, []bool{true}) {
 				mx.CNAME = true
 				emit(c05Case{Cfg: cfg, Dom: one(mx, "", true), Hist: []c05Msg{{Flag: f, Doms: []int{0}}}})
+			}
+		}
+	}
+
+	// (Q) the message is quarantined by a body-stage check, i.e. after the recipients were accepted;
+	// both body paths of the target
+	family = "Q"
+	for _, cfg := range c05Cfgs(c05LocalsFew, false) {
+		for _, f := range []string{"quarantine-late", "quarantine-late-atomic"} {
+			for _, mx := range c05MXs([]string{"", "valid"}, []string{"none"}, []bool{true}, []bool{false}, []bool{true}) {
+				emit(c05Case{Cfg: cfg, Dom: one(mx, "", true), Hist: []c05Msg{{Flag: f, Doms: []int{0}}}})
+				emit(c05Case{Cfg: cfg, Dom: []c05Dom{{MXAD: true, MX: []c05MX{mx}}, {MXAD: true, MX: []c05MX{mx}}}, Hist: []c05Msg{{Flag: f, Doms: []int{0, 1}}}})
 			}
 		}
 	}
